@@ -15,22 +15,7 @@ Definition may_be_escaped (c : cp) : bool :=
   || (c <? 128) && mem c [37; 35; 47; 58; 63; 64; 91; 93; 38; 43; 59; 61].     (* % # / : ? @ [ ] & + ; = *)
 
 Definition readable (h : str) : bool :=
-  let l := tokenize h in
-  let fix go (fuel : nat) (l : list item) : bool :=
-    match fuel with
-    | O => true
-    | S f =>
-        match l with
-        | [] => true
-        | ILit _ :: r => go f r
-        | IEsc _ _ :: _ =>
-            let '(run, rest) := take_run l in
-            forallb (fun x => match x with inl c => may_be_escaped c | inr _ => true end)
-                    (decode_run (S (length run)) run)
-            && go f rest
-        end
-    end in
-  go (S (length l)) l.
+  forallb (fun p => match p with PDec c => may_be_escaped c | _ => true end) (decode_pieces (tokenize h)).
 
 (** args: observation of u (profile 2), observation of URL(u.human_repr()) *)
 Definition c18_pred (args : list val) : bool :=
